@@ -52,6 +52,13 @@ def i64(t: torch.Tensor) -> np.ndarray:
     return t.detach().to(torch.int64).reshape(t.shape[0], -1).numpy()
 
 
+def batch_free_hash(obj) -> int:
+    """a small integer that depends on the fixture but not on the batch size (batched and single copies must be
+    built identically)"""
+    import zlib
+    return zlib.crc32(repr((obj.name, obj.mode, round(float(obj.dt), 6), obj.trainer_name)).encode()) % 97
+
+
 class Fixture:
     """kind, mode ("exact": dyadic recipe, float32 arithmetic exact; "tol": arbitrary floats)"""
     kind = "?"
@@ -378,9 +385,10 @@ class LayerFix(Fixture):
             layer = Biclique([("a", c1), ("b", c2)],
                              [("x", _lif((self.n_out,), self.dt, batch, m, self.np)),
                               ("y", _lif((self.n_out,), self.dt, batch, m, dict(self.np, R=0 if False else self.np["R"])))],
-                             # a callable: the shipped string reducers ("sum", ...) keep a leading singleton
-                             # dimension (einops "s ... -> () ..."), which is C17's business, not C11's
-                             combine=lambda tensors, **kw: sum(tensors.values()))
+                             # the shipped string reducers (since the repair of D23 they no longer keep a leading
+                             # singleton dimension) and a callable, chosen per fixture
+                             combine=(("sum", "mean", "max", "min", lambda tensors, **kw: sum(tensors.values()))
+                                      [(self.n_in + 2 * self.n_out + batch_free_hash(self)) % 5]))
         else:
             ff = self._conn("ff", "dense", (self.n_in,), (self.n_out,), batch, 1.0)
             lat = self._conn("lat", "direct", (self.n_out,), (self.n_out,), batch, 1.0)
